@@ -515,11 +515,11 @@ def gen_forms(ctx):
     quick = ctx.tier == 'quick'
     cases = []
     forms = systematic_forms()
-    forms += [rand_forms(rng) for _ in range(40 if quick else 400)]
-    per = 12 if quick else 40
+    forms += [rand_forms(rng) for _ in range(40 if quick else 200)]
+    per = 12 if quick else 24
     for i, (kinds, opts) in enumerate(forms):
-        # every syntax sees every systematic form over the seeds; thorough: all syntaxes
-        syns = [su.SYNTAXES[(i + rng.randrange(len(su.SYNTAXES))) % len(su.SYNTAXES)]] if quick else su.SYNTAXES
+        # one (quick) or two (thorough) syntaxes per written configuration, drawn anew on every run
+        syns = rng.sample(su.SYNTAXES, 1 if quick else 2)
         for syn in syns:
             cfg = form_cfg(syn, opts, kinds)
             o = cfg.oracle_options()
